@@ -288,7 +288,7 @@ package mint
 //@   safety C06 C12
 //@   requires len(proofs) >= 1
 //@   loop range(proofs) invariant 0 <= i && i <= len(proofs) && secret == nut10.parse(proofs[0].Secret) && nut10.ok(proofs[0].Secret) && pubkeys == nut11.keysof(secret) && nut11.keysok(secret) && tags.ok(secret.Data.Tags) && signaturesRequired == nsigsof(secret) && hvs.calls == old(hvs.calls) && hvs.fails == old(hvs.fails) && (forall j :: 0 <= j && j < i ==> nut10.ok(proofs[j].Secret) && sigall(nut10.parse(proofs[j].Secret)) && samecond(secret, nut10.parse(proofs[j].Secret)))
-//@   loop range(blindedMessages) invariant 0 <= i && i <= len(blindedMessages) && secret == nut10.parse(proofs[0].Secret) && pubkeys == nut11.keysof(secret) && signaturesRequired == nsigsof(secret) && hvs.calls == old(hvs.calls) + i && hvs.fails == old(hvs.fails) && (forall j :: 0 <= j && j < len(proofs) ==> nut10.ok(proofs[j].Secret) && sigall(nut10.parse(proofs[j].Secret)) && samecond(secret, nut10.parse(proofs[j].Secret)))
+//@   loop range(blindedMessages) invariant 0 <= i && i <= len(blindedMessages) && secret == nut10.parse(proofs[0].Secret) && pubkeys == nut11.keysof(secret) && signaturesRequired == nsigsof(secret) && hvs.calls == old(hvs.calls) + i && hvs.fails == old(hvs.fails) && (i > 0 ==> secret.Kind == nut10.P2PK || secret.Kind == nut10.HTLC) && (forall j :: 0 <= j && j < len(proofs) ==> nut10.ok(proofs[j].Secret) && sigall(nut10.parse(proofs[j].Secret)) && samecond(secret, nut10.parse(proofs[j].Secret)))
 //@   calls nut11.HasValidSignatures asserts @handed [C12,C13] hexok(bm.B_) && bytes(hash) == sha256(hexdec(bm.B_)) && Nsigs == nsigsof(nut10.parse(proofs[0].Secret)) && pubkeys == nut11.keysof(nut10.parse(proofs[0].Secret)) && (forall a, b :: 0 <= a && a < b && b < len(signatures) ==> signatures[a] != signatures[b])
 //@   calls nut11.HasValidSignatures asserts @htlcpreimage [C13] secret.Kind == nut10.HTLC ==> hexok(local(witness, nut14.HTLCWitness).Preimage) && len(secret.Data.Data) == 64 && hexenc(sha256(hexdec(local(witness, nut14.HTLCWitness).Preimage))) == secret.Data.Data && signatures == local(witness, nut14.HTLCWitness).Signatures
 //@   calls nut11.HasValidSignatures asserts @p2pkwitness [C12] secret.Kind == nut10.P2PK ==> signatures == local(witness, nut11.P2PKWitness).Signatures
